@@ -38,10 +38,10 @@ Defects(e) == CASE e.mode = "sched"   -> Common(e, AllowedLive(e))
                 [] e.mode = "seq"     -> Common(e, {IF RunningAfter(Append(e.pre, e.op), 1, TRUE) THEN 1 ELSE 0})
                 [] e.mode = "periods" -> (IF e.periodok /\ e.panic = "" THEN {} ELSE {"ticker period not in (0, timeout] or announced timeout wrong"})
                 \* a subscriber whose connection blocked for 2.5 s: the refreshes go on and carry a current timestamp
-                \* (timestamps are rounded to seconds: an age of up to one second is current)
+                \* (timestamps are rounded to seconds: an age of up to 1.5 s counts as current: half a second of rounding plus scheduling latency)
                 [] e.mode = "slow"    -> (IF e.panic = "" THEN {} ELSE {"panic or hang"})
                                          \cup (IF e.after >= 1 THEN {} ELSE {"no refresh after a slow subscriber"})
-                                         \cup (IF e.maxagems <= 1000 THEN {} ELSE {"refresh carries a stale timestamp"})
+                                         \cup (IF e.maxagems <= 1500 THEN {} ELSE {"refresh carries a stale timestamp"})
                 [] OTHER -> {"unknown mode"}
 
 VARIABLE l
